@@ -28,7 +28,7 @@ RULE = ("cases: configurations (kind, shape, order supplied, unit, optional part
         "cell-array comparison; non-trivial = distinct configurations with >= 2 wavelengths whose supplied order or read order requires a reversal, or with an optional part absent")
 ASSUMPTIONS = ["values are finite and positive", "astropy.io.fits round-trips float64 arrays exactly"]
 REQUIRED_CLASSES = ['sed', 'cube', 'convolved', 'supplied-wav-ascending', 'supplied-wav-descending', 'read-order-nu', 'read-order-wav', 'no-apertures', 'no-uncertainties',
-                    'memmap-on', 'memmap-off', 'get_sed', 'unit-erg/cm2/s', 'unit-erg/s', 'unit-Jy', 'writer-vs-fits', 'fits-vs-reader']
+                    'memmap-on', 'memmap-off', 'get_sed', 'unit-erg/cm2/s', 'unit-erg/s', 'unit-Jy', 'writer-vs-fits', 'fits-vs-reader', 'written-twice', 'other-family-unit-both-orders', 'cube-nu-consistent']
 TIMEOUT = {'quick': 300, 'thorough': 1800}
 
 UNITS = ['mJy', 'Jy', 'erg / (cm2 s)', 'erg / s']
@@ -143,11 +143,23 @@ def _sed(ctx, case, rec, d, key):
             s.apertures = ap * u.au
         s.flux = cells * uq
         s.error = err * uq
+        from mc.canon import canon
+        before = canon([s.name, s.distance, s.wav, s.nu, s.apertures, s.flux, s.error])
         _, e = _try(rec, 'sed-write', case, lambda: s.write(fn))
         rec.ev()
         rec.trans()
         if e:
             return
+        # the object is written a second time (same content expected): a writer must not consume its object
+        fn2 = os.path.join(d, 'sed_second.fits')
+        _, e = _try(rec, 'sed-write', case, lambda: s.write(fn2))
+        rec.trans()
+        rec.cls('written-twice')
+        if e:
+            return
+        if canon([s.name, s.distance, s.wav, s.nu, s.apertures, s.flux, s.error]) != before:
+            _viol(rec, 'sed-write|object-modified', case, {'problem': 'SED.write changed the object it was asked to write'})
+        fn = fn2 if (n_wav + n_ap) % 2 else fn        # half of the configurations go on with the second file
     else:
         pkgwriter.write_sed_file(d, 'model_x', wav, cells, err, apertures_au=ap, unit=uq.to_string(format='fits'), filename='sed.fits')
         fn = os.path.join(d, 'seds', 'sed.fits')
@@ -207,6 +219,16 @@ def _sed(ctx, case, rec, d, key):
         if bad:
             _viol(rec, 'sed-roundtrip|%s|%s|%s' % (path, sup, order), dict(case, order=order), {'problem': bad})
             return
+    # the same pair of reads with a flux unit of another family (conversion uses the frequencies)
+    other = u.erg / u.cm ** 2 / u.s if uq.is_equivalent(u.Jy) else u.mJy
+    ra, e1 = _try(rec, 'sed-read', case, lambda: SED.read(fn, unit_flux=other, order='nu'))
+    rb, e2 = _try(rec, 'sed-read', case, lambda: SED.read(fn, unit_flux=other, order='wav'))
+    rec.ev(2)
+    rec.cls('other-family-unit-both-orders')
+    if e1 or e2:
+        return
+    if not (_close(ra.flux.value, rb.flux.value[:, ::-1]) and _close(ra.error.value, rb.error.value[:, ::-1]) and _close(ra.nu.value, rb.nu.value[::-1])):
+        _viol(rec, 'sed-read|orders-not-mirror-images|converted-unit', case, {'nu_order_flux': ra.flux.value[0], 'wav_order_flux_reversed': rb.flux.value[0][::-1]})
     a, b = reads['nu'], reads['wav']
     if not (_close(a.wav.value, b.wav.value[::-1]) and _close(a.nu.value, b.nu.value[::-1]) and _close(a.flux.value, b.flux.value[:, ::-1]) and _close(a.error.value, b.error.value[:, ::-1])):
         _viol(rec, 'sed-read|orders-not-mirror-images', case, {'nu_order_wav': a.wav.value, 'wav_order_wav': b.wav.value})
@@ -250,6 +272,12 @@ def _cube(ctx, case, rec, d, key):
         rec.trans()
         if e:
             return
+        fn2 = os.path.join(d, 'flux_second.fits')
+        _, e = _try(rec, 'cube-write', case, lambda: c.write(fn2))
+        rec.trans()
+        if e:
+            return
+        fn = fn2 if (n_wav + n_ap + n_models) % 2 else fn
     else:
         pkgwriter.write_cube(d, names, wav, cells, unc=err if has_unc else None, apertures_au=ap, unit=uq.to_string())
         rec.cls('fits-vs-reader')
@@ -288,6 +316,8 @@ def _cube(ctx, case, rec, d, key):
             inc = (np.all(np.diff(rnu) > 0) if order == 'nu' else np.all(np.diff(rw) > 0)) or n_wav < 2
             if not inc:
                 bad = 'spectral axis not increasing in %s' % order
+            elif not np.allclose(rnu, pkgwriter.C_M_S / (rw * 1e-6), rtol=1e-6):
+                bad = 'wavelengths and frequencies of the cube no longer correspond'
             elif [str(x) for x in r.names] != names:
                 bad = 'names %r' % list(r.names)
             elif r.val.shape != cells.shape:
@@ -321,7 +351,8 @@ def _cube(ctx, case, rec, d, key):
                 if e:
                     return
                 sf = np.asarray(s.flux.to(uq).value, float)
-                okm = s.name == nm and sf.shape == cells[mi].shape and _close(s.wav.to(u.micron).value, rw)
+                rec.cls('cube-nu-consistent')
+                okm = s.name == nm and sf.shape == cells[mi].shape and _close(s.wav.to(u.micron).value, rw) and np.allclose(s.nu.to(u.Hz).value, pkgwriter.C_M_S / (rw * 1e-6), rtol=1e-6)
                 if okm:
                     for j in range(n_wav):
                         k = int(np.argmin(np.abs(wav - rw[j])))
